@@ -4,7 +4,7 @@ from __future__ import annotations
 
 import numpy as np
 
-from .. import gen, monitors
+from .. import derive, gen, monitors
 
 PID = "C10"
 ANCHORS = ["scores.py:Scores.cm", "scores.py:Scores._threshold_at_ratio", "scores.py:Scores._invert_increasing_function", "scores.py:pointwise_cm",
@@ -88,6 +88,8 @@ def execute(ctx, case):
         size = int(np.prod(shp)) if shp else 1
         if kind == "thr":
             base = gen.thresholds(rng, allv, with_inf=True)
+            if rng.random() < 0.12:
+                base = np.concatenate([base, [np.nan, np.nan]])  # a missing value in a threshold column: element and scalar call must still agree
         else:
             # exact rates k/N of each population (the interpolation index is then an exact integer) besides generic targets
             pops = [n for n in (len(pos), len(neg), len(pos) + len(neg), len(pos) + case["ep"], len(neg) + case["en"]) if n > 0]
@@ -205,12 +207,12 @@ def execute(ctx, case):
     th = rand_input("thr")
     l0, s0 = labels.copy(), sv.copy()
     th0 = th.copy() if isinstance(th, np.ndarray) else th
-    pw = pointwise_cm(labels.reshape(sshape), sv.reshape(sshape), th, score_class=sc, equal_class=ec)
+    pw = pointwise_cm(labels.reshape(sshape), sv.reshape(sshape), th, **derive.call_form(case["_seed"], dict(score_class=sc, equal_class=ec)))  # judged by M-pw against the documented defaults
     C(pw.shape == sshape + np.shape(th) + (2, 2) and pw.dtype == bool, "pointwise_cm shape is not scores.shape+threshold.shape+(2,2)", "hist-pw-shape", got=pw.shape, thr_shape=np.shape(th), scores_shape=sshape)
-    C(np.array_equal(labels, l0) and np.array_equal(sv, s0) and (not isinstance(th, np.ndarray) or np.array_equal(th, th0)), "pointwise_cm mutated an argument", "hist-pw-args")
+    C(np.array_equal(labels, l0) and np.array_equal(sv, s0) and (not isinstance(th, np.ndarray) or np.array_equal(th, th0, equal_nan=True)), "pointwise_cm mutated an argument", "hist-pw-args")
     # elementwise: slice j of the vectorised result equals the call with element j as a plain Python scalar / numpy scalar / 0-d array
     tv = np.asarray(gen.thresholds(rng, allv, with_inf=True)[:6], dtype=float)
-    pwv = pointwise_cm(labels, sv, tv, score_class=sc, equal_class=ec)
+    pwv = pointwise_cm(labels, sv, tv, **derive.call_form(case["_seed"] + 1, dict(score_class=sc, equal_class=ec)))
     for j in range(len(tv)):
         for form, x in (("python float", float(tv[j])), ("np.float64", np.float64(tv[j])), ("0-d array", np.asarray(tv[j]))):
             one = pointwise_cm(labels, sv, x, score_class=sc, equal_class=ec)
